@@ -1670,3 +1670,279 @@ Proof.
     pose proof (new_root_step i s h ty None I L eq_refl) as S2.
     eapply start_fresh_cinv; eauto; try reflexivity. apply S2.
 Qed.
+
+(* --- Action.finish --------------------------------------------------------------- *)
+Lemma finish_tail_cinv c s s1 h a fs :
+  Step i s s1 -> CInv (Some h) s1 -> alookup h (heap s) = Some a ->
+  (fget K_status fs = Some (VStatus Succeeded) \/ fget K_status fs = Some (VStatus Failed)) ->
+  CInv None (let '(s2, l) := take_level s1 h in
+             logger_write cfg c s2
+               (fset K_level (VLevel l)
+                  (fset K_atype (a_type a)
+                  (fset K_uuid (VUuid (a_uuid a))
+                  (fset K_ts VTime fs)))) None).
+Proof.
+  intros S01 C1 L St.
+  destruct (proj2 S01 _ _ L) as (a1 & L1 & U1 & V1 & _).
+  rewrite (take_level_eq _ _ _ L1). cbn [logger_write]. apply send_cinv.
+  destruct (take_step i _ _ _ (proj1 S01) L1) as (S2 & _).
+  apply end_cinv; auto.
+  - rewrite place_globals by apply S2. rewrite U1. place_tac.
+  - unfold is_end. rewrite status_globals by (proj_set; apply C1).
+    repeat (rewrite fget_fset_other by keys_ne). exact St.
+Qed.
+
+Lemma finish_cinv c s h exc :
+  CInv None s ->
+  (forall a, alookup h (heap s) = Some a -> a_finished a = false ->
+             unref (heap s) (ctx s) (tokens s) h) ->
+  CInv None (finish cfg c s h exc).
+Proof.
+  intros C0 UR. pose proof C0 as [I G N F C]. unfold finish.
+  destruct (alookup h (heap s)) as [a|] eqn:L; [|exact C0].
+  destruct (a_finished a) eqn:Fa; [exact C0|].
+  specialize (UR _ eq_refl eq_refl).
+  match goal with |- context [set_heap s h ?x] => set (af := x) end.
+  assert (Sa : a_sers a = None) by eauto.
+  assert (S0 : Step i s (set_heap s h af)).
+  { eapply set_heap_same_step; eauto. intros v E. eapply hi_atok; eauto using inv_HI. }
+  assert (C1 : CInv (Some h) (set_heap s h af)).
+  { constructor; proj_set; auto.
+    - apply S0.
+    - apply nosers_aset; auto.
+    - eapply FI_finish; eauto.
+    - change (trace_of (set_heap s h af) i) with (trace_of s i). eapply CI_flag; eauto. }
+  set (s0 := set_heap s h af) in *.
+  rewrite Sa. cbn [opt_ser].
+  destruct exc as [e|].
+  - pose proof (fields_for_exception_step i cfg c s0 e (proj1 S0)) as S1.
+    pose proof (fields_for_exception_cinv (Some h) c s0 e C1) as C2.
+    destruct (fields_for_exception cfg c s0 e) as [s' xf]. cbn [fst] in *.
+    apply finish_tail_cinv; auto; [eapply Step_trans; eauto|].
+    right. apply fget_fset_same.
+  - apply finish_tail_cinv; auto. left. apply fget_fset_same.
+Qed.
+
+(* --- the stronger discipline -------------------------------------------------------- *)
+Definition oeqb (v : option nat) (h : nat) : bool :=
+  match v with Some x => Nat.eqb x h | None => false end.
+
+(* h is the current action of some context, or saved in a token stack, or saved by __enter__ *)
+Definition refd (s : state) (h : nat) : bool :=
+  existsb (fun cv => oeqb (snd cv) h) (ctx s)
+  || existsb (fun ct => existsb (fun v => oeqb v h) (snd ct)) (tokens s)
+  || existsb (fun ha => match a_token (snd ha) with Some v => oeqb v h | None => false end) (heap s).
+
+Lemma refd_spec s h : refd s h = false -> unref (heap s) (ctx s) (tokens s) h.
+Proof.
+  unfold refd. intros R. apply orb_false_iff in R as [R R3]. apply orb_false_iff in R as [R1 R2].
+  constructor.
+  - intros c E. apply alookup_In in E. apply not_true_iff_false in R1. apply R1.
+    apply existsb_exists. exists (c, Some h). split; [exact E | cbn; apply Nat.eqb_refl].
+  - intros c t E J. apply alookup_In in E. apply not_true_iff_false in R2. apply R2.
+    apply existsb_exists. exists (c, t). split; [exact E|]. cbn.
+    apply existsb_exists. exists (Some h). split; [exact J | cbn; apply Nat.eqb_refl].
+  - intros h0 a0 E T. apply alookup_In in E. apply not_true_iff_false in R3. apply R3.
+    apply existsb_exists. exists (h0, a0). split; [exact E|]. cbn. rewrite T. cbn. apply Nat.eqb_refl.
+Qed.
+
+Definition unfinished (s : state) (h : nat) : bool :=
+  match alookup h (heap s) with Some a => negb (a_finished a) | None => true end.
+
+(* finish() only on an action nothing refers to any more (or already finished) *)
+Definition may_finish (s : state) (h : nat) : bool :=
+  match alookup h (heap s) with Some a => a_finished a || negb (refd s h) | None => true end.
+
+(* the state in which __exit__ calls finish(): context reset, saved token dropped *)
+Definition exit_state (s : state) (c h : nat) (a : action) : state :=
+  set_heap (set_ctx s c (match a_token a with Some t => t | None => None end)) h
+           (mkAction (a_uuid a) (a_level a) (a_last a) (a_finished a) (a_succ a)
+                     (a_type a) (a_sers a) None).
+
+Definition is_none {A} (o : option A) : bool := match o with None => true | Some _ => false end.
+
+(* [op_ok2 c s o] = [op_ok] plus the conditions of the contiguity claim:
+   - no field serializers (the property excludes failing ones);
+   - no position is requested from a finished action: no __enter__/context()/log/
+     serialize_task_id on a finished action, and finish()/__exit__ only once nothing
+     refers to the action any more (not current in any context, not saved in any token);
+   - serialized task ids go to fresh slots (so that the model state remembers them);
+   - global fields do not use the name action_status. *)
+Definition op_ok2 (c : nat) (s : state) (o : op) : bool :=
+  op_ok i s o &&
+  match o with
+  | OStart _ _ _ _ sers => is_none sers
+  | OLog _ _ ser => is_none ser
+  | OEnter h => unfinished s h
+  | OCtxEnter h => unfinished s h
+  | OActionLog h _ _ => unfinished s h
+  | OSerializeId h slot => unfinished s h && is_none (alookup slot (ids s))
+  | OFinish h _ => may_finish s h
+  | OExit h _ => match alookup h (heap s) with
+                 | Some a => may_finish (exit_state s c h a) h
+                 | None => true
+                 end
+  | OAddGlobals fs => nokey K_status fs
+  | _ => true
+  end.
+
+Fixpoint disciplined2 (ops : list (nat * op)) (s : state) : bool :=
+  match ops with
+  | [] => true
+  | (c, o) :: r => op_ok2 c s o && disciplined2 r (api cfg c s o)
+  end.
+
+Lemma disciplined2_disciplined ops : forall s,
+  disciplined2 ops s = true -> disciplined i cfg ops s = true.
+Proof.
+  induction ops as [|[c o] r IH]; intros s D; cbn in *; [reflexivity|].
+  apply andb_true_iff in D as [D1 D2]. unfold op_ok2 in D1. apply andb_true_iff in D1 as [D1 _].
+  rewrite D1. cbn. auto.
+Qed.
+
+Lemma may_finish_spec s h :
+  may_finish s h = true ->
+  forall a, alookup h (heap s) = Some a -> a_finished a = false -> unref (heap s) (ctx s) (tokens s) h.
+Proof.
+  unfold may_finish. intros M a L F. rewrite L, F in M. cbn in M.
+  apply refd_spec. now apply negb_true_iff in M.
+Qed.
+
+Lemma unfinished_spec s h a : unfinished s h = true -> alookup h (heap s) = Some a -> a_finished a = false.
+Proof. unfold unfinished. intros U L. rewrite L in U. now apply negb_true_iff in U. Qed.
+
+Lemma trace_add_dests s ds :
+  Inv i s -> trace_of (set_out s true (buffer s) (dests s ++ ds) (gone s)) i = trace_of s i.
+Proof.
+  intros [A [d D] _ _ _ _].
+  assert (D' : find (is_i i) (dests s ++ ds) = Some d) by (rewrite find_app, D; reflexivity).
+  erewrite trace_reg by (cbn; exact D'). now rewrite <- (trace_reg _ _ _ D).
+Qed.
+
+Lemma trace_remove_dest s id ds x g :
+  Inv i s -> id <> i -> remove_dest id (dests s) = (ds, x) ->
+  trace_of (set_out s (any_added s) (buffer s) ds g) i = trace_of s i.
+Proof.
+  intros [A [d D] _ _ _ _] N E.
+  pose proof (remove_dest_find i id (dests s) N) as F. rewrite E in F. cbn [fst] in F.
+  assert (D' : find (is_i i) ds = Some d) by congruence.
+  erewrite trace_reg by (cbn; exact D'). now rewrite <- (trace_reg _ _ _ D).
+Qed.
+
+Lemma api_cinv c s o : CInv None s -> op_ok2 c s o = true -> CInv None (api cfg c s o).
+Proof.
+  intros C0 O. unfold op_ok2 in O. apply andb_true_iff in O as [O1 O2].
+  pose proof C0 as [I G N F C].
+  pose proof (proj1 (api_step i cfg c s o I O1)) as I'.
+  destruct o; cbn [api op_ok] in *.
+  - (* OStart *)
+    destruct sers; [discriminate|]. apply andb_true_iff in O1 as [O1 _].
+    apply start_action_cinv; auto using fresh_handle_spec.
+  - (* OEnter *)
+    destruct (alookup h (heap s)) as [a|] eqn:L; [|exact C0].
+    pose proof (unfinished_spec _ _ _ O2 L) as Fa.
+    constructor; proj_set; auto.
+    + apply nosers_aset; auto. cbn; eauto.
+    + apply FI_ctx.
+      * apply FI_aset_unfin; auto. cbn. intros v E. inversion E. now apply unfin_cur.
+      * cbn. intros a0. rewrite alookup_aset_same. intros E; inversion E. exact Fa.
+    + eapply CI_meta; eauto.
+  - (* OExit *)
+    destruct (alookup h (heap s)) as [a|] eqn:L; [|exact C0].
+    fold (exit_state s c h a) in *.
+    assert (S1 : Step i s (set_ctx s c (match a_token a with Some t => t | None => None end))).
+    { apply set_ctx_step; auto. destruct (a_token a) as [t|] eqn:E; [|exact Logic.I].
+      eapply hi_atok; eauto using inv_HI. }
+    assert (S2 : Step i s (exit_state s c h a)).
+    { eapply Step_trans; [exact S1|]. eapply set_heap_same_step; [apply S1 | cbn; exact L | | | | |]; auto.
+      cbn; discriminate. }
+    apply finish_cinv; [|now apply may_finish_spec].
+    constructor; unfold exit_state; proj_set; auto.
+    + apply S2.
+    + apply nosers_aset; auto. cbn; eauto.
+    + eapply FI_aset_same; eauto; [|cbn; discriminate].
+      apply FI_ctx; auto. destruct (a_token a) as [t|] eqn:E; [|exact Logic.I].
+      eapply fi_atok; eauto.
+    + eapply CI_meta; eauto.
+  - (* OCtxEnter *)
+    apply negb_true_iff in O1. unfold fresh_handle in O1.
+    destruct (alookup h (heap s)) as [a|] eqn:L; [|discriminate].
+    pose proof (unfinished_spec _ _ _ O2 L) as Fa.
+    constructor; proj_set; auto.
+    apply FI_ctx; [apply FI_tok; auto|].
+    + intros v [<-|J]; [now apply unfin_cur|].
+      destruct (alookup c (tokens s)) as [t|] eqn:E; [|destruct J]. eapply fi_tok; eauto.
+    + cbn. intros a0 E. rewrite L in E. inversion E; subst a0. exact Fa.
+  - (* OCtxExit *)
+    destruct (alookup c (tokens s)) as [[|t st]|] eqn:E; try exact C0.
+    constructor; proj_set; auto.
+    apply FI_ctx; [apply FI_tok; auto|].
+    + intros v J. eapply fi_tok; eauto. now right.
+    + eapply fi_tok; eauto. now left.
+  - (* OFinish *) apply finish_cinv; auto. now apply may_finish_spec.
+  - (* OAddSuccess *)
+    destruct (alookup h (heap s)) as [a|] eqn:L; [|exact C0].
+    constructor; proj_set; auto.
+    + apply nosers_aset; auto. cbn; eauto.
+    + eapply FI_aset_same; eauto. cbn. intros v E. eapply fi_atok; eauto.
+    + eapply CI_meta; eauto.
+  - (* OLog *)
+    destruct ser; [discriminate|].
+    destruct (stamp_here s c mt (mkfields fs)) as [s2 m] eqn:E. cbn [logger_write].
+    apply send_cinv. eapply stamp_deliver_cinv; eauto.
+    destruct (stamp_here_step i _ _ _ _ _ _ I E) as (S1 & _). apply place_globals, S1.
+  - (* OActionLog *)
+    destruct (alookup h (heap s)) as [a|] eqn:L; [|exact C0].
+    rewrite (take_level_eq _ _ _ L). cbn [logger_write]. apply send_cinv.
+    destruct (take_step i _ _ _ I L) as (S1 & _).
+    apply emit_cinv; eauto using unfinished_spec.
+    rewrite place_globals by apply S1. apply place_stamp.
+  - (* OTraceback *) now apply write_traceback_cinv.
+  - (* OSerializeId *)
+    destruct (alookup h (heap s)) as [a|] eqn:L; [|exact C0].
+    apply andb_true_iff in O2 as [O2 O3].
+    rewrite (take_level_eq _ _ _ L) in *.
+    constructor; proj_set; auto.
+    + apply nosers_aset; auto. cbn; eauto.
+    + eapply FI_aset_same; eauto. cbn. intros v E. eapply fi_atok; eauto.
+    + change (trace_of (set_ids _ _) i) with (trace_of s i). apply CI_ids; eauto using unfinished_spec.
+      destruct (alookup slot (ids s)); [discriminate | reflexivity].
+  - (* OContinue *)
+    destruct (alookup slot (ids s)) as [[u l]|] eqn:L; [|exact C0].
+    apply andb_true_iff in O1 as [O1 O3].
+    eapply start_fresh_cinv; eauto; try reflexivity; auto using fresh_handle_spec.
+    apply new_sub_step; auto using fresh_handle_spec, node_free_spec.
+    eapply pi_ids; eauto using inv_PI.
+  - (* OSpawn *)
+    constructor; proj_set; auto. apply FI_ctx; auto. now apply unfin_cur.
+  - (* OAddDests *)
+    rewrite (inv_added _ _ I) in *. constructor; auto.
+    now rewrite trace_add_dests.
+  - (* ORemoveDest *)
+    apply negb_true_iff in O1. apply Nat.eqb_neq in O1.
+    destruct (remove_dest id (dests s)) as [ds x] eqn:E.
+    destruct x as [d0|]; [|exact C0].
+    constructor; auto. now erewrite trace_remove_dest by eauto.
+  - (* OAddGlobals *)
+    constructor; auto. exact (nokey_fupdate _ _ _ G O2).
+  - (* OProbe *) constructor; auto.
+  - (* ORawWrite *) discriminate.
+Qed.
+
+Lemma run_cinv ops : forall s, CInv None s -> disciplined2 ops s = true -> CInv None (run cfg ops s).
+Proof.
+  induction ops as [|[c o] r IH]; intros s C D; cbn [run fold_left fst snd]; [exact C|].
+  cbn [disciplined2] in D. apply andb_true_iff in D as [D1 D2].
+  apply IH; [now apply api_cinv | exact D2].
+Qed.
+
+Lemma CInv_registered ds : observed i ds -> CInv None (registered ds).
+Proof.
+  intros O. pose proof (Inv_start i ds O) as I. destruct O as (d & F & E).
+  constructor; auto; cbn.
+  - intros h a; discriminate.
+  - constructor; cbn; discriminate.
+  - erewrite trace_reg by (cbn; exact F). rewrite E. constructor; cbn; discriminate.
+Qed.
+
+End Contig.
